@@ -1333,6 +1333,21 @@ class Printer:
             return '(%s %s %s)' % (self.sz_e(I[0]), n['opcode'], self.sz_e(I[1]))
         if k == 'ConditionalOperator' and len(I) == 3:
             return '(%s ? %s : %s)' % (self.sz_e(I[0]), self.sz_e(I[1]), self.sz_e(I[2]))
+        if k == 'CallExpr' and I:
+            f_ = self.callee_decl(I[0])
+            if (f_.get('name') or f_.get('referencedDecl', {}).get('name')) == 'ToFile' and len(I) == 5:
+                # NiVersion::ToFile(a, b, c, d) with literal arguments: the packed version number (constexpr in the source)
+                vals = []
+                for a in I[1:]:
+                    a0 = a
+                    while a0.get('kind') in ('ImplicitCastExpr', 'ParenExpr', 'ConstantExpr') and a0.get('inner'):
+                        a0 = a0['inner'][0]
+                    if a0.get('kind') != 'IntegerLiteral':
+                        raise ExtractionBreak('ToFile with a non-literal argument')
+                    vals.append(int(a0['value']))
+                self.fire('sz:tofile-constant')
+                return '((uint32_t)%du)' % ((vals[0] << 24) | (vals[1] << 16) | (vals[2] << 8) | vals[3])
+            raise ExtractionBreak('call in scalar expression')
         if k == 'CXXMemberCallExpr' and I:
             me = I[0]
             m = me.get('name')
@@ -1626,6 +1641,29 @@ class Printer:
                 nm = self.sz_locals[x['referencedDecl']['id']]
                 return t + '%s = (%s)(%s %s 1);\n' % (nm, self.sz_local_types[nm], nm, '+' if nn['opcode'] == '++' else '-')
             return t + ';\n'
+        if nn.get('kind') == 'CXXOperatorCallExpr' and len(nn.get('inner', [])) == 3:
+            f0 = self.callee_decl(nn['inner'][0])
+            opn0 = f0.get('name') or f0.get('referencedDecl', {}).get('name')
+            if opn0 == 'operator>>':
+                # stream >> x : a read into x
+                a0 = nn['inner'][2]
+                while a0.get('kind') in ('ImplicitCastExpr', 'ParenExpr') and a0.get('inner'):
+                    a0 = a0['inner'][0]
+                an, _ = self.sz_path(a0)
+                if an:
+                    try:
+                        lv = self.sz_member(an, a0)
+                        ct = self.unit['_selfs'][self.unit['self']][lv[6:]]
+                        self.fire('sz:read-scalar-member')
+                        return t + self.sz_havoc(lv, ct) + '\n'
+                    except ExtractionBreak:
+                        pass
+                if a0.get('kind') == 'DeclRefExpr' and a0.get('referencedDecl', {}).get('id') in self.sz_locals:
+                    nm = self.sz_locals[a0['referencedDecl']['id']]
+                    self.fire('sz:read-scalar-local')
+                    return t + self.sz_havoc(nm, self.sz_local_types[nm]) + '\n'
+                self.fire('sz:read-of-untracked-data')
+                return t + '/* read of element data */;\n'
         if nn.get('kind') == 'CXXOperatorCallExpr':
             # whole-object assignment (vector = vector ...): size of a tracked container becomes unknown
             if len(nn.get('inner', [])) >= 2:
